@@ -412,6 +412,19 @@ func main() {
 				}
 			}
 		}
+		if spec.PassThroughPct > 0 && t.Kind != pgen.KPath && r.Pct(spec.PassThroughPct) {
+			// the common "pass an input file through" idiom: the output is a
+			// relative symlink, in this job's files directory, to an input file
+			for _, fc := range fchecks {
+				if fc.State != "ok" || fc.Tok == "" {
+					continue
+				}
+				if rel, err := filepath.Rel(files, fc.Path); err == nil && os.Symlink(rel, p) == nil {
+					wr = append(wr, written{Path: p, Size: fc.Size, Tok: fc.Tok, Kind: "out-symlink"})
+					return p
+				}
+			}
+		}
 		if r.Pct(spec.PMissingFile) {
 			missing = append(missing, p)
 			return p
